@@ -9,13 +9,16 @@ reset                                    → ok
 log <rule> <base> <old|-> <loggees|->    → ok      loggees = tag:sid:f1,f2;tag:sid:
 stamp <int|none> | adv <n>               → ok
 write|poke <sid> <field> <val>           → ok
-append <sid> <field> <atom>              → ok
+append <sid> <field> <elem>              → ok
+setitem <sid> <field> <key> <atom>       → ok
 push <sid> <entry>                       → ok
 ctl ready|start|run|stop|abort           → ok | ERR <PythonExceptionName>
 dump <i>                                 → absent | file lines joined by the two characters \n
 region D12                               → in | out
 ```
-values: `N` `T` `F` `i<int>` `s<text>` `L<atom>,<atom>…`; entries `M<f>=<atom>,…` / `O<value>`.
+atoms `N` `T` `F` `i<int>` `s<text>`; elements: an atom, `U<atom>+<atom>…` (tuple, `U` = `()`),
+`V<atom>+…` (list); values: an atom, `U…` (tuple), `L<elem>,<elem>…` (list), `D<k>=<atom>,…` (dict),
+`Q<k>=<atom>,…` (odict); entries `M<f>=<elem>,…` (mapping) / `O<elem>` / `OL<atom>,…` (non-mappings).
 Stamps are in units of 1/8 s and are printed as Python prints the float.
 -/
 namespace Ioflo.Drv.LogRules
@@ -35,22 +38,51 @@ def parseAtom (s : String) : Option Atom :=
 def parseAtoms (s : String) : Option (List Atom) :=
   if s.isEmpty then some [] else (splitC ',' s).mapM parseAtom
 
-def parseVal (s : String) : Option Val :=
+/-- atoms joined by `+` (the inside of a tuple or of an inner list) -/
+def parsePlus (s : String) : Option (List Atom) :=
+  if s.isEmpty then some [] else (splitC '+' s).mapM parseAtom
+
+def parseElem (s : String) : Option Elem :=
   match s.toList with
-  | 'L' :: rest => (parseAtoms (String.ofList rest)).map .list
+  | 'U' :: rest => (parsePlus (String.ofList rest)).map .tuple
+  | 'V' :: rest => (parsePlus (String.ofList rest)).map .list
   | _ => (parseAtom s).map .atom
+
+def parseElems (s : String) : Option (List Elem) :=
+  if s.isEmpty then some [] else (splitC ',' s).mapM parseElem
 
 def parseKV (s : String) : Option (String × Atom) :=
   match splitC '=' s with
   | [k, v] => (parseAtom v).map fun a => (k, a)
   | _ => none
 
+/-- `k=atom,…` built with `d[k] = v`, so that a repeated key keeps one binding -/
+def parseDict (s : String) : Option (Dict Atom) :=
+  if s.isEmpty then some []
+  else ((splitC ',' s).mapM parseKV).map fun kvs => kvs.foldl (fun d kv => dset d kv.1 kv.2) []
+
+def parseVal (s : String) : Option Val :=
+  match s.toList with
+  | 'L' :: rest => (parseElems (String.ofList rest)).map .list
+  | 'U' :: rest => (parsePlus (String.ofList rest)).map .tuple
+  | 'D' :: rest => (parseDict (String.ofList rest)).map (.dict false)
+  | 'Q' :: rest => (parseDict (String.ofList rest)).map (.dict true)
+  | _ => (parseAtom s).map .atom
+
+/-- a field of a mapping deck entry: `f=<element>` -/
+def parseKE (s : String) : Option (String × Val) :=
+  match splitC '=' s with
+  | [k, v] => (parseElem v).map fun e => (k, e.toVal)
+  | _ => none
+
 def parseEntry (s : String) : Option Entry :=
   match s.toList with
   | 'M' :: rest =>
     let r := String.ofList rest
-    if r.isEmpty then some (.map []) else ((splitC ',' r).mapM parseKV).map .map
-  | 'O' :: rest => (parseVal (String.ofList rest)).map .other
+    if r.isEmpty then some (.map [])
+    else ((splitC ',' r).mapM parseKE).map fun kvs => .map (kvs.foldl (fun d kv => dset d kv.1 kv.2) [])
+  | 'O' :: 'L' :: rest => (parseAtoms (String.ofList rest)).map fun l => .other (.list l)
+  | 'O' :: rest => (parseElem (String.ofList rest)).map .other
   | _ => none
 
 def parseRule : String → Option Rule
@@ -95,9 +127,23 @@ def reprAtom : Atom → String
   | .str s => "'" ++ s ++ "'"
   | a => showAtom a
 
+def reprTuple (l : List Atom) : String :=
+  "(" ++ ", ".intercalate (l.map reprAtom) ++ (if l.length = 1 then ",)" else ")")
+
+def reprList (l : List Atom) : String := "[" ++ ", ".intercalate (l.map reprAtom) ++ "]"
+
+def reprElem : Elem → String
+  | .atom a => reprAtom a
+  | .tuple l => reprTuple l
+  | .list l => reprList l
+
 def showVal : Val → String
   | .atom a => showAtom a
-  | .list l => "[" ++ ", ".intercalate (l.map reprAtom) ++ "]"
+  | .tuple l => reprTuple l
+  | .list l => "[" ++ ", ".intercalate (l.map reprElem) ++ "]"
+  | .dict false d => "{" ++ ", ".intercalate (d.map fun (k, v) => "'" ++ k ++ "': " ++ reprAtom v) ++ "}"
+  | .dict true d =>
+    "odict([" ++ ", ".intercalate (d.map fun (k, v) => "('" ++ k ++ "', " ++ reprAtom v ++ ")") ++ "])"
 
 def ruleName : Rule → String
   | .never => "Never" | .once => "Once" | .always => "Always" | .update => "Update"
@@ -165,8 +211,12 @@ def step (st : St) (line : String) : St × String :=
     | some s, some x => doOp st (.w (.poke s f x))
     | _, _ => (st, "bad-op")
   | ["append", sid, f, a] =>
-    match sid.toNat?, parseAtom a with
+    match sid.toNat?, parseElem a with
     | some s, some x => doOp st (.w (.append s f x))
+    | _, _ => (st, "bad-op")
+  | ["setitem", sid, f, k, a] =>
+    match sid.toNat?, parseAtom a with
+    | some s, some x => doOp st (.w (.setitem s f k x))
     | _, _ => (st, "bad-op")
   | ["push", sid, e] =>
     match sid.toNat?, parseEntry e with
